@@ -906,6 +906,32 @@ func runC08(r *Run) {
 		}
 	})
 
+	r.rule("R8", "the error-handler selection folds letter case the way the router does: every case fold applied in ErrorHandler (to the request path and to the mount prefixes) is the function the router applies to detection paths and patterns (the ASCII-only utils.ToLower) — a Unicode-aware fold maps `/K` (Kelvin sign) to `/k`, a path no route of the sub-app can match is then counted as below its mount point (E5, sibling agreement)", func() {
+		isFold := func(n string) bool {
+			return strings.Contains(n, ".ToLower") || strings.Contains(n, ".ToUpper") || n == "strings.EqualFold" || strings.HasSuffix(n, ".EqualFold")
+		}
+		router := map[string]bool{}
+		for _, fn := range []string{"(*DefaultCtx).configDependentPaths", "(*App).register"} {
+			for _, c := range callsIn(r.Fn("", fn), false) {
+				if isFold(c.Name) {
+					router[c.Name] = true
+				}
+			}
+		}
+		r.need(len(router) >= 1, "the router folds detection paths and patterns")
+		eh := r.Fn("", "(*App).ErrorHandler")
+		n := 0
+		for _, c := range callsIn(eh, false) {
+			if !isFold(c.Name) {
+				continue
+			}
+			n++
+			r.check(router[c.Name], fmt.Sprintf("ErrorHandler:fold#%d:the-router's-fold", n), r.pos(c.Instr), "folded with "+short(c.Name)+", as the router does",
+				"the error-handler selection folds with "+short(c.Name)+" while the router folds with "+strings.Join(sortedKeys(router), ", ")+": for non-ASCII letters the two disagree (U+212A KELVIN SIGN → k, É → é), a request the sub-app's routes cannot match is handed to the sub-app's error handler")
+		}
+		r.atLeast("case folds in ErrorHandler", n, 2)
+	})
+
 	r.rule("R7", "the mounted handler is chosen the way routes are matched: when registration folds patterns to lower case (unless CaseSensitive), the candidate test folds path and prefix too (E5)", func() {
 		reg := r.Fn("", "(*App).register")
 		folds := false
